@@ -67,10 +67,12 @@ type IssuerFromOption func(c *issuerConfig)
 // The same rules apply where the first successful host is returned.
 func WithIssuerFromCustomHeaders(headers ...string) IssuerFromOption {
 	return func(c *issuerConfig) {
+		// the slice of the caller is not modified
+		canonical := make([]string, len(headers))
 		for i, h := range headers {
-			headers[i] = http.CanonicalHeaderKey(h)
+			canonical[i] = http.CanonicalHeaderKey(h)
 		}
-		c.headers = headers
+		c.headers = canonical
 	}
 }
 
